@@ -5,7 +5,7 @@
    (Queries.v); [reach rq ms a b] reads "a requires ... requires b". *)
 From Coq Require Import Permutation.
 From AJ Require Import Common.Util Graph.GModel Graph.Sanitize Graph.Topo Graph.GSpecs
-  Graph.Queries Graph.QueriesP Graph.GSpecs2.
+  Graph.Queries Graph.QueriesP Graph.QueriesO Graph.GSpecs2.
 
 (* predecessors(starts...): exactly the members directly required by one of the starts *)
 Theorem C17_predecessors_exact : forall ms rq starts x,
@@ -59,6 +59,34 @@ Print Assumptions C17_closure_exact.
 Theorem C17_closure_nodup : forall f ms starts, NoDup (fst (closure f ms starts)).
 Proof. exact closure_nodup. Qed.
 Print Assumptions C17_closure_nodup.
+
+(* the two sets that the loop iterates over internally (closure.copy() and the result of
+   _neighbours) have an unobservable, changing iteration order: for every way of reordering them,
+   differently in every round, the loop still ends within the bound and yields exactly the
+   reachable jobs, i.e. the same set as [closure], which is the identity instance *)
+Theorem C17_closure_any_order : forall (ordc : nat -> list nat -> list nat)
+  (ordn : list nat -> list nat),
+  (forall k l, Permutation (ordc k l) l) -> (forall l, Permutation (ordn l) l) ->
+  forall f ms starts,
+  snd (closure_o ordc ordn f ms starts) = true /\
+  NoDup (fst (closure_o ordc ordn f ms starts)) /\
+  forall x, In x (fst (closure_o ordc ordn f ms starts)) <->
+            exists s, In s starts /\ reach f ms s x.
+Proof. exact closure_o_exact. Qed.
+Print Assumptions C17_closure_any_order.
+
+Theorem C17_closure_any_order_same : forall (ordc : nat -> list nat -> list nat)
+  (ordn : list nat -> list nat),
+  (forall k l, Permutation (ordc k l) l) -> (forall l, Permutation (ordn l) l) ->
+  forall f ms starts,
+  Permutation (fst (closure_o ordc ordn f ms starts)) (fst (closure f ms starts)).
+Proof. exact closure_o_same. Qed.
+Print Assumptions C17_closure_any_order_same.
+
+Theorem C17_closure_identity_order : forall f ms starts,
+  closure_o (fun _ l => l) (fun l => l) f ms starts = closure f ms starts.
+Proof. exact closure_o_id. Qed.
+Print Assumptions C17_closure_identity_order.
 
 (* predecessors_upstream(starts...) *)
 Theorem C17_upstream_exact : forall rq ms starts x,
